@@ -1,12 +1,22 @@
+mod cmd_lin;
 mod cmd_backend;
+mod cmd_det;
+mod cmd_native;
+mod native;
 mod cmd_stages;
 mod cmd_fun2core;
+mod cmd_rt;
+mod cmd_check;
+mod cmd_check_gen;
 mod consts;
 mod pipe;
 mod cmd_genfun;
 mod gen_fun;
 mod gen_fun_ast;
 mod gen_fun_eval;
+mod gen_fun_check;
+mod gen_fun_mutate;
+mod gen_fun_reduce;
 mod rec;
 mod rng;
 mod sexp;
@@ -69,6 +79,8 @@ fn main() {
     // commands whose 4th argument is not an output file
     match arg(1) {
         "genfun" => { cmd_genfun::cmd_genfun(num(2, 1), num(3, 10) as usize, if arg(4).is_empty() { "genfun-out" } else { arg(4) }, args.get(5..).unwrap_or(&[])); return; }
+        "genfun-reduce" => { cmd_genfun::cmd_reduce(num(2, 1), num(3, 0) as usize, arg(4), arg(5), args.get(6..).unwrap_or(&[])); return; }
+        "genfun-mutants" => { cmd_genfun::cmd_mutants(num(2, 1), num(3, 100) as usize, args.get(4..).unwrap_or(&[])); return; }
         "genfun-stats" => { cmd_genfun::cmd_stats(num(2, 1), num(3, 100) as usize, args.get(4..).unwrap_or(&[])); return; }
         _ => {}
     }
@@ -82,9 +94,17 @@ fn main() {
             let which = &arg(1)[8..];
             cmd_backend::cmd_codegen(which, num(2, 1), num(3, 0) as usize, &mut *out, &args[5.min(args.len())..]);
         }
+        "c10-x86" => cmd_backend::cmd_c10("x86", num(2, 1), num(3, 0) as usize, &mut *out, &args[5.min(args.len())..]),
+        "native-x86" => cmd_native::cmd_native_x86(num(2, 1), num(3, 0) as usize, &mut *out, &args[5.min(args.len())..]),
+        "stages-text" => { cmd_det::cmd_stages_text(arg(2)); return; }
+        "determinism" => cmd_det::cmd_determinism(num(2, 1), num(3, 0) as usize, &mut *out, &args[5.min(args.len())..]),
         "pm" => cmd_pm(num(2, 1), num(3, 100) as usize, &mut *out),
+        "lin-show" => { cmd_lin::cmd_lin_show(num(2, 1)); return; }
+        "lin" => cmd_lin::cmd_lin(num(2, 1), num(3, 100) as usize, &mut *out, args.get(5..).unwrap_or(&[])),
+        "check" => cmd_check::cmd_check(num(2, 1), num(3, 0) as usize, args.get(5..).unwrap_or(&[]), &mut *out),
         "stages" => cmd_stages::cmd_stages(num(2, 1), num(3, 0) as usize, args.get(5..).unwrap_or(&[]), &mut *out),
         "fun2core" => cmd_fun2core::cmd_fun2core(num(2, 1), num(3, 0) as usize, args.get(5..).unwrap_or(&[]), &mut *out),
+        "rt" => cmd_rt::cmd_rt(num(2, 1), num(3, 100) as usize, &mut *out),
         c => { eprintln!("unknown command {c}"); std::process::exit(2); }
     }
     out.flush().unwrap();
